@@ -47,7 +47,7 @@ def _survey(fn):
 def _strategy():
     from vf import recovery_kit as K
 
-    return K.st_case()
+    return K.st_case(fail_kinds=("soft", "stop", "lose"))
 
 
 def oracle(case, rec, res, base, K):
@@ -140,3 +140,98 @@ async def check_enumerated(case, rec):
     base = await K.baseline(case["shape"])
     res = await K.run_scenario(case["shape"], plan, max_retries=K.safe_retries(shape, plan), schedule=case["schedule"], wait_order=0)
     oracle(case, rec, res, base, K)
+
+
+# ---- many jobs failing repeatedly at the same time (nested recoveries of many jobs at once) --------
+
+
+def _mass():
+    from hypothesis import strategies as st
+
+    from vf import recovery_kit as K
+
+    return st.fixed_dictionaries(
+        {
+            "shape": st.fixed_dictionaries(
+                {
+                    "kind": st.just("scatter"), "width": st.sampled_from([6, 8, 10, 11, 12, 13]), "pre": st.integers(0, 1), "inner": st.just(1),
+                    "post": st.integers(0, 1), "token": st.sampled_from(["file", "primitive"]), "ndep": st.just(1),
+                }
+            ),
+            "times": st.sampled_from([2, 3, 3]),
+            "phase": st.sampled_from(["execute", "execute", "transfer", "schedule"]),
+            "skip": st.integers(0, 2),  # how many elements do not fail
+            "schedule": K.st_schedule(),
+            "wait_order": st.sampled_from([0, 0, 1, 2, 3]),
+        }
+    )
+
+
+@prop.given("mass-soft-failures", _mass, quick=80, thorough=3000)
+@_survey
+async def check_mass(case, rec):
+    """all (but 0..2) elements of a scatter fail softly 2..3 times, the first time in the same loop turn
+    (execute phase: barrier), so that many recoveries and their nested recoveries are alive at once"""
+    from vf import recovery_kit as K
+
+    shape = K.Shape(case["shape"])
+    step = next(i for i, s in enumerate(shape.steps) if s["scattered"])
+    raw = [[step, t, case["phase"], "soft", case["times"], 1] for t in range(case["skip"], shape.width)]
+    plan = K.resolve_plan(shape, raw)
+    base = await K.baseline(case["shape"])
+    res = await K.run_scenario(case["shape"], plan, max_retries=K.safe_retries(shape, plan), schedule=case["schedule"], wait_order=case.get("wait_order", 0))
+    if res.barrier_stuck:
+        from vf.core import HarnessError
+
+        raise HarnessError(f"barrier never opened: {sorted(res.run.arrived)} of {sorted(res.run.barrier)}")
+    view = oracle(case, rec, res, base, K)
+    rec.label(f"failing-jobs={len(plan)}", f"times={case['times']}", f"max-open-recoveries>={min(res.run.max_open // 8 * 8, 32)}")
+    rec.nontrivial(res.run.max_open >= 8)
+
+
+# ---- resumed scatter with >= 11 elements (tags 0.10, 0.11 ... differ from 0.1 only as strings) ------
+
+
+def _wide():
+    from hypothesis import strategies as st
+
+    from vf import recovery_kit as K
+
+    return st.fixed_dictionaries(
+        {
+            "shape": st.fixed_dictionaries(
+                {
+                    "kind": st.just("scatter"), "width": st.sampled_from([3, 10, 11, 11, 12, 12, 13]), "pre": st.integers(0, 1),
+                    "inner": st.integers(1, 2), "post": st.just(1), "token": st.just("file"), "ndep": st.sampled_from([1, 1, 2]),
+                }
+            ),
+            # the step after the gather fails: the data it needs (all elements, the scattered list) are
+            # lost, so the producer side of the scatter and the ScatterStep itself are re-run
+            "phase": st.sampled_from(list(K.PHASES)),
+            "kind": st.sampled_from(["stop", "stop", "lose"]),
+            "times": st.integers(1, 2),
+            "victims": st.lists(st.tuples(st.integers(0, 3), st.sampled_from([0, 1, 1, 2, 9, 10, 11, 12])).map(list), min_size=1, max_size=4),
+            "extra": K.st_plan(max_points=1, max_times=2, kinds=("soft",)),
+            "schedule": K.st_schedule(),
+            "wait_order": st.sampled_from([0, 0, 1, 2, 3]),
+        }
+    )
+
+
+@prop.given("resumed-wide-scatter", _wide, quick=100, thorough=4000)
+@_survey
+async def check_wide(case, rec):
+    from vf import recovery_kit as K
+
+    shape = K.Shape(case["shape"])
+    last = len(shape.steps) - 1
+    victims = [[0, 0], *case["victims"]] if case["kind"] == "lose" else []  # the producer of the scattered list is always lost
+    raw = [[last, 0, case["phase"], case["kind"], case["times"], 0, victims], *case["extra"]]
+    plan = K.resolve_plan(shape, raw)
+    base = await K.baseline(case["shape"])
+    res = await K.run_scenario(case["shape"], plan, max_retries=K.safe_retries(shape, plan), schedule=case["schedule"], wait_order=case.get("wait_order", 0))
+    view = oracle(case, rec, res, base, K)
+    scattered = [j for j in shape.jobs() if shape.by_name[j.rsplit("/", 1)[0]]["scattered"]]
+    rerun_hi = [j for j in scattered if view.starts.get(j, 0) >= 2 and int(j.rsplit(".", 1)[1]) >= 10]
+    rec.label("element>=10-regenerated" if rerun_hi else "no-element>=10-regenerated")
+    rec.nontrivial(bool(view.rerun_without_own_failure()))
